@@ -29,6 +29,13 @@ CHECKS = {
          "and every negotiated parameter must lie in both raw policies per an independent model using the IANA table; failed handshakes must fail with an alert on at least one side and never one-sidedly complete.",
          "own credential type enabled in own settings (caller precondition); settings.versions never set directly; private _send/_recv_record_limit attributes read for the record-limit agreement",
          "DESIGN.md §4 C03"),
+ "C05": ("fault_enumeration",
+         "fault enumeration site x corruption through a well-keyed deviant peer (real endpoint, wrapped send methods, substituted keys, re-signed proofs) with positive controls",
+         "Every proof-of-possession site (ServerKeyExchange signature for RSA/ECDSA/EdDSA/DSA in TLS 1.0-1.2, client CertificateVerify, TLS 1.3 server/client CertificateVerify, post-handshake authentication, Finished, SRP proof, external PSK binder, Checker) "
+         "is combined with each corruption (bit flip, proof by another key of the same type, proof replayed from another handshake, valid proof re-signed with a scheme the verifier did not offer, garbage, wrong password / unknown user / A mod N = 0, wrong PSK, flipped or re-attributed binder, wrong fingerprint); "
+         "the verifier must fail with an alert and never complete with the identity attributed. Positive controls (honest run; valid re-signed proof with an offered scheme) make the negatives non-vacuous.",
+         "omitted proof messages are C06; the deviant uses tlslite helper functions only as a signing/encoding convenience",
+         "DESIGN.md §4 C05"),
  "C06": ("fault_enumeration",
          "fault enumeration over message traces: every single skip/duplicate/swap/insert/replace deviation of 12 honest handshake flavours replayed by a well-keyed deviant peer, judged by an independent order-legality model; drawn deviation pairs",
          "For each (flavour, deviant side) the honest trace (handshake messages + ChangeCipherSpec) is replayed with one deviation - all positions x {skip, duplicate, swap} and x {insert, replace} with a 13-message pool - the deviant's transcript "
